@@ -34,7 +34,13 @@ Definition obs := (N * N * N)%type.
     call.  mode: 0 rollback journal, 1 WAL, 2 rollback journal with a one-page cache (spills). *)
 Inductive case :=
 | CRun (method : string) (kind k mode : N) (tr : rle) (refw : rle) (pre post : N)
-       (observations : list obs) (retry_tr : rle) (retry_d : N).
+       (observations : list obs) (retry_tr : rle) (retry_d : N)
+(** A real multi-statement read API documented as a snapshot ([api]; e.g. get_wallet_summary) on a
+    reader connection; at its statement boundary [k] a complete writer call runs on a second
+    connection. [tr]: the reader's events (RBegin/REnd from its autocommit flag, one RRead per
+    statement) with the writer call's trace spliced in where it ran. [pre]/[post]: digest of what
+    the API returns on the state before / after the writer call; [res]: what it returned. *)
+| CRead (api : string) (k mode : N) (tr : rle) (pre post res : N).
 
 (** ---- helpers -------------------------------------------------------------------------- *)
 
@@ -88,8 +94,20 @@ Definition obs_agrees (t : trace) (refw : list N) (pre post : N) (o : obs) : boo
   | None => true
   end.
 
+(** the reader's view according to the model, classified against the trace's own writes *)
+Definition read_predict (t : trace) : option cls :=
+  match reader_view (log_sem t) with
+  | Some x => Some (classify (writes_of t) x)
+  | None => None
+  end.
+
 Definition run_case (c : case) : bool :=
   match c with
+  | CRead _ _ _ tr pre post res =>
+      match read_predict (expand tr) with
+      | Some cl => agrees cl res pre post
+      | None => true
+      end
   | CRun _ kind k mode tr refw pre post os rtr rd =>
       let t := expand tr in
       let rw := writes_of (expand refw) in
@@ -123,6 +141,15 @@ Definition is_fault_kind (kind : N) : bool := (kind =? 1) || (kind =? 2) || (kin
 
 Definition prop_case (c : case) : bool :=
   match c with
+  | CRead _ _ _ tr pre post res =>
+      let t := expand tr in
+      (* every statement of the read sits in one read transaction *)
+      disciplined_reader t &&
+      (* the writer call that ran meanwhile is itself disciplined *)
+      disciplined (writer_part t) &&
+      (* what the API returned is what it returns before or after the writer call *)
+      negb (res =? 0) && ((res =? pre) || (res =? post)) &&
+      (if has_ev is_commit t then true else res =? pre)
   | CRun _ kind k mode tr refw pre post os rtr rd =>
       let t := expand tr in
       match op_ok t with
@@ -154,5 +181,7 @@ Definition ending (t : trace) : N :=
 
 Definition tag_case (c : case) : N :=
   match c with
+  | CRead _ _ mode tr pre post res =>
+      48 + 4 * mode + (if has_ev is_commit (expand tr) then (if res =? post then (if res =? pre then 3 else 2) else 1) else 0)
   | CRun _ kind k mode tr _ _ _ _ _ _ => kind * 6 + ending (expand tr)
   end.
